@@ -20,7 +20,7 @@ TIME_BUDGET = {"quick": 90, "thorough": 900}
 FLOORS = {"quick": {"pairs": 800, "steps_compared": 3000, "bytes_compared": 1000000, "pairs_with_exception": 150, "tcp_pairs": 2, "distinct": 500},
           "thorough": {"pairs": 15000, "steps_compared": 60000, "pairs_with_exception": 3000, "tcp_pairs": 8}}
 
-PERTS = ["none", "none", "fault", "stall", "cap", "corrupt", "auth", "disconnected"]
+PERTS = ["none", "none", "fault", "stall", "cap", "corrupt", "auth", "disconnected", "eofstall", "syncfail", "large"]
 
 
 def gen_cases(tier, seed):
@@ -87,8 +87,22 @@ def one_side(impl, case, sc, pert):
             if mode == "closed":
                 o2 = sess.call("close")
                 rec["outs"].append(("close", o2.kind, o2.value if o2.ok else o2.exc_name(), []))
-        if pert == "stall":
+        if pert in ("stall", "eofstall"):
             sim.stop_after = sim.emitted + rng.randint(0, 25)
+            if pert == "eofstall":
+                sess.core.stall = "eof"
+        if pert == "syncfail":
+            plan = sim.sync_plan
+            which = rng.randrange(4)
+            for st_ in sc["steps"]:
+                pth = st_.get("path", "").encode()
+                if st_["op"] == "pull":
+                    plan.recv_raw[pth] = [wire.sync_fail(b"no such file"), wire.sync_data(b"ab") + wire.sync_fail(b"io error \xff"), struct.pack("<II", wire.ID_OKAY, 0), struct.pack("<II", wire.ID_DENT, 0)][which]
+                elif st_["op"] == "push":
+                    if which < 2:
+                        plan.send_fail[pth] = ([("send"), ("data", 1)][which], b"denied")
+                    else:
+                        plan.send_raw_status[pth] = struct.pack("<II", [wire.ID_DATA, wire.ID_DONE][which - 2], 0)
         if pert == "corrupt":
             target = sim.emitted + rng.randint(0, 20)
             how = rng.choice(["payload", "sum", "word"])
@@ -100,7 +114,7 @@ def one_side(impl, case, sc, pert):
                 if how == "payload" and pkt.payload:
                     b[24] ^= 0x55
                 elif how == "sum" and pkt.payload:
-                    b[17] ^= 0x01
+                    b[16 + (target % 4)] ^= 0x01 << (target % 8)
                 elif how == "word":
                     b[0:4] = struct.pack("<I", 0x12345678)
                 return bytes(b)
@@ -114,8 +128,10 @@ def one_side(impl, case, sc, pert):
             val = out.value if out.ok else out.exc_name()
             rec["outs"].append((step["op"], out.kind, val, sorted(x["mechanism"] for x in v)))
             rec["avail"].append(sess.dev.available)
-            if not out.ok and pert in ("fault", "stall", "corrupt", "cap"):
+            if not out.ok and pert in ("fault", "stall", "eofstall", "corrupt", "cap"):
                 break       # what an un-reconnected session does next is not compared
+        io_ = getattr(sess.dev, "_io_manager", None)
+        rec["locks"] = [bool(lk.locked()) for lk in (getattr(io_, "_transport_lock", None), getattr(io_, "_store_lock", None), getattr(sess.dev, "_local_id_lock", None)) if lk is not None]
         rec["bytes"] = bytes(sess.core.written)
         rec["packets"] = len(sess.sim.host_log)
         rec["dev_packets"] = len(sess.sim.dev_log)
@@ -127,7 +143,7 @@ def one_side(impl, case, sc, pert):
 
 
 def run_step_with(r, i, step, pert):
-    if pert == "stall":
+    if pert in ("stall", "eofstall"):
         # pass small timeouts straight to the API (the Runner's helpers use defaults), only for the simple ops
         sess = r.sess
         op = step["op"]
@@ -163,6 +179,8 @@ def compare(a, b, what):
         return viol
     if a["avail"] != b["avail"]:
         viol.append({"mechanism": "available-differs", "detail": "%s: available after each step: sync %r async %r" % (what, a["avail"], b["avail"])})
+    if a.get("locks") != b.get("locks") or any(a.get("locks", [])):
+        viol.append({"mechanism": "lock-state-differs", "detail": "%s: locks held after the run (transport, store, id): sync %r async %r" % (what, a.get("locks"), b.get("locks"))})
     if a["bytes"] != b["bytes"]:
         n = min(len(a["bytes"]), len(b["bytes"]))
         k = next((i for i in range(n) if a["bytes"][i] != b["bytes"][i]), n)
@@ -374,6 +392,11 @@ def run_case(case):
     for st in sc["steps"]:
         if st["op"] == "push" and st.get("mtime") == 0:
             st["mtime"] = 4
+    if pert == "large":
+        for st in sc["steps"]:
+            if st["op"] in ("shell", "exec_out", "streaming_shell"):
+                st["cls"] = "large"
+        pert = "none"
     if pert != "none":
         sc["dims"]["noise"] = [x for x in sc["dims"]["noise"] if x != "bg"]
     a = one_side("sync", case, sc, pert)
